@@ -187,7 +187,7 @@ class DecoyFasta():
 
         if self.enzyme is not None:
             rule = self.enzyme
-            exception = 'trypsin_expection' if self.enzyme == 'trypsin' else None
+            exception = 'trypsin_exception' if self.enzyme == 'trypsin' else None
             fixed_indices += aa.AminoAcidSeqRecord(seq) \
                 .find_all_enzymatic_cleave_sites(rule, exception)
 
